@@ -101,8 +101,14 @@ pub fn record(out: &mut dyn Write, r: &mut ChaCha20Rng, n: usize) {
                         let a3 = <<Refe as Pairing>::$G as CurveGroup>::Affine::deserialize_uncompressed(&u_o[..]).map(|p| ser(&p, false) == u_o).unwrap_or(false);
                         a1 && a2 && a3
                     };
-                    emit(out, json!({"k":"blsmul","grp":grp,"terms":terms,"ours":bytes_o,"ref":bytes_r,
-                        "ours_unc":ser(&po, false),"ref_unc":ser(&pr, false),"ours_sum":ser(&parts_o, true),"cross":cross}));
+                    // "ground": the specification recomputes this multiple from the generator with its own group law
+                    // (every structured scalar, then every fourth one: ~1 s of TLC time each)
+                    let mut ev = json!({"k":"blsmul","grp":grp,"terms":terms,"ours":bytes_o,"ref":bytes_r,
+                        "ours_unc":ser(&po, false),"ref_unc":ser(&pr, false),"ours_sum":ser(&parts_o, true),"cross":cross});
+                    if i < 26 || i % 4 == 0 {
+                        ev["ground"] = json!(true);
+                    }
+                    emit(out, ev);
                 }};
             }
             if grp == "G1" {
@@ -136,8 +142,18 @@ pub fn record(out: &mut dyn Write, r: &mut ChaCha20Rng, n: usize) {
         let er = Refe::pairing(g1r * sr(a), g2r * sr(b));
         let pow_o = gt_o.0.pow((so(a) * so(b)).into_bigint());
         let pow_r = gt_r.0.pow((sr(a) * sr(b)).into_bigint());
-        emit(out, json!({"k":"blspair","a":a,"b":b,"ours":ser(&eo.0, true),"ref":ser(&er.0, true),
-            "ours_pow":ser(&pow_o, true),"ref_pow":ser(&pow_r, true)}));
+        let mut ev = json!({"k":"blspair","a":a,"b":b,"ours":ser(&eo.0, true),"ref":ser(&er.0, true),
+            "ours_pow":ser(&pow_o, true),"ref_pow":ser(&pow_r, true)});
+        // "ground": the specification recomputes the pairing itself (Miller loop + final exponentiation in TLA+,
+        // about a minute of TLC time): e(0, G2), e(G1, G2) and (long runs only) one random pair; "gt": the recorded e(G1, G2),
+        // from which the specification recomputes e(G1, G2)^(ab) by exponentiation in Fp12
+        if i == 0 || i == 2 || (i == 7 && n >= 100) {
+            ev["ground"] = json!(true);
+        }
+        if i == 7 || i == 9 {
+            ev["gt"] = json!(ser(&gt_o.0, true));
+        }
+        emit(out, ev);
     }
 }
 
@@ -269,34 +285,44 @@ pub fn extras(out: &mut dyn Write, r: &mut ChaCha20Rng, n: usize) {
             2 => b[len - 1] = 0x40,
             _ => b[len - 1] &= 0x81,
         }
-        macro_rules! de {
-            ($G:ident) => {{
-                let o = <<Ours as Pairing>::$G as CurveGroup>::Affine::deserialize_compressed(&b[..]);
-                let rr = <<Refe as Pairing>::$G as CurveGroup>::Affine::deserialize_compressed(&b[..]);
-                let ou = <<Ours as Pairing>::$G as CurveGroup>::Affine::deserialize_compressed_unchecked(&b[..]);
-                let ru = <<Refe as Pairing>::$G as CurveGroup>::Affine::deserialize_compressed_unchecked(&b[..]);
-                let cof = match (&ou, &ru) {
-                    // clear_cofactor is NOT compared byte for byte: the reference clears with the effective cofactor
-                    // (1 - x), the crate's config with the full cofactor h; both must land in the subgroup
-                    (Ok(a), Ok(c)) => json!({"ours_clear_insub": a.clear_cofactor().is_in_correct_subgroup_assuming_on_curve(),
-                        "ref_clear_insub": c.clear_cofactor().is_in_correct_subgroup_assuming_on_curve(),
-                        "ours_mulcof": ser(&a.mul_by_cofactor(), false), "ref_mulcof": ser(&c.mul_by_cofactor(), false),
-                        "ours_mulinv": ser(&a.mul_by_cofactor_inv(), false), "ref_mulinv": ser(&c.mul_by_cofactor_inv(), false),
-                        "ours_insub": a.is_in_correct_subgroup_assuming_on_curve(), "ref_insub": c.is_in_correct_subgroup_assuming_on_curve()}),
-                    _ => json!({}),
-                };
-                emit(out, json!({"k":"blsdeser","grp":grp,"b":b,"ours_ok":o.is_ok(),"ref_ok":rr.is_ok(),
-                    "ours_unchecked_ok":ou.is_ok(),"ref_unchecked_ok":ru.is_ok(),
-                    "ours_re":o.map(|p| ser(&p, false)).unwrap_or_default(),"ref_re":rr.map(|p| ser(&p, false)).unwrap_or_default(),
-                    "ours_ure":ou.map(|p| ser(&p, false)).unwrap_or_default(),"ref_ure":ru.map(|p| ser(&p, false)).unwrap_or_default(),
-                    "cof":cof}));
-            }};
-        }
-        if grp == "G1" {
-            de!(G1)
-        } else {
-            de!(G2)
-        }
+        deser_event(out, grp, &b);
+    }
+}
+
+/// one string through the validated and the unchecked compressed deserialiser of both engines, plus the cofactor
+/// operations on the resulting curve point
+macro_rules! deser_with {
+    ($G:ident, $out:expr, $grp:expr, $b:expr) => {{
+        let out = $out;
+        let grp: &str = $grp;
+        let b: &Vec<u8> = $b;
+
+        let o = <<Ours as Pairing>::$G as CurveGroup>::Affine::deserialize_compressed(&b[..]);
+        let rr = <<Refe as Pairing>::$G as CurveGroup>::Affine::deserialize_compressed(&b[..]);
+        let ou = <<Ours as Pairing>::$G as CurveGroup>::Affine::deserialize_compressed_unchecked(&b[..]);
+        let ru = <<Refe as Pairing>::$G as CurveGroup>::Affine::deserialize_compressed_unchecked(&b[..]);
+        let cof = match (&ou, &ru) {
+            // clear_cofactor is NOT compared byte for byte: the reference clears with the effective cofactor
+            // (1 - x), the crate's config with the full cofactor h; both must land in the subgroup
+            (Ok(a), Ok(c)) => json!({"ours_clear_insub": a.clear_cofactor().is_in_correct_subgroup_assuming_on_curve(),
+                "ref_clear_insub": c.clear_cofactor().is_in_correct_subgroup_assuming_on_curve(),
+                "ours_mulcof": ser(&a.mul_by_cofactor(), false), "ref_mulcof": ser(&c.mul_by_cofactor(), false),
+                "ours_mulinv": ser(&a.mul_by_cofactor_inv(), false), "ref_mulinv": ser(&c.mul_by_cofactor_inv(), false),
+                "ours_insub": a.is_in_correct_subgroup_assuming_on_curve(), "ref_insub": c.is_in_correct_subgroup_assuming_on_curve()}),
+            _ => json!({}),
+        };
+        emit(out, json!({"k":"blsdeser","grp":grp,"b":b,"ours_ok":o.is_ok(),"ref_ok":rr.is_ok(),
+            "ours_unchecked_ok":ou.is_ok(),"ref_unchecked_ok":ru.is_ok(),
+            "ours_re":o.map(|p| ser(&p, false)).unwrap_or_default(),"ref_re":rr.map(|p| ser(&p, false)).unwrap_or_default(),
+            "ours_ure":ou.map(|p| ser(&p, false)).unwrap_or_default(),"ref_ure":ru.map(|p| ser(&p, false)).unwrap_or_default(),
+            "cof":cof}));
+        }};
+}
+pub fn deser_event(out: &mut dyn Write, grp: &str, b: &Vec<u8>) {
+    if grp == "G1" {
+        deser_with!(G1, out, grp, b)
+    } else {
+        deser_with!(G2, out, grp, b)
     }
 }
 
@@ -307,6 +333,13 @@ pub fn points(out: &mut dyn Write, file: &str) {
     let text = std::fs::read_to_string(file).expect("points file");
     for line in text.lines() {
         let v: serde_json::Value = serde_json::from_str(line).expect("json");
+        if let Some(grp) = v["deser"].as_str() {
+            // a constructed compressed string (tools/g1_points.py: G2 x-coordinates whose curve-equation right-hand
+            // side lies in Fp, the special branch of the square root in Fp2)
+            let b: Vec<u8> = serde_json::from_value(v["b"].clone()).unwrap();
+            deser_event(out, grp, &b);
+            continue;
+        }
         let x: Vec<u8> = serde_json::from_value(v["x"].clone()).unwrap();
         let y: Vec<u8> = serde_json::from_value(v["y"].clone()).unwrap();
         let mut unc = x.clone();
